@@ -300,17 +300,29 @@ def run_base_capa(
     # Used to get the final set of anomalies after the loop.
     opt_anomaly_starts = np.repeat(np.nan, n)
     starts = np.array([], dtype=int)
+    min_segment_shift = min_segment_length - 1
 
-    ts = np.arange(min_segment_length - 1, n)
+    ts = np.arange(n)
     for t in ts:
-        # Collective anomalies
         t_array = np.array([t])
-        starts = np.concatenate((starts, t_array - min_segment_length + 1))
-        ends = np.repeat(t + 1, len(starts))
-        collective_savings = collective_saving.evaluate(np.column_stack((starts, ends)))
-        opt_collective_saving, opt_start, candidate_savings = optimise_savings(
-            starts, opt_savings, collective_savings, collective_alpha, collective_betas
-        )
+        collective_possible = t >= min_segment_shift
+
+        # Collective anomalies
+        opt_collective_saving = -np.inf
+        opt_start = t
+        if collective_possible:
+            starts = np.concatenate((starts, t_array - min_segment_shift))
+            ends = np.repeat(t + 1, len(starts))
+            collective_savings = collective_saving.evaluate(
+                np.column_stack((starts, ends))
+            )
+            opt_collective_saving, opt_start, candidate_savings = optimise_savings(
+                starts,
+                opt_savings,
+                collective_savings,
+                collective_alpha,
+                collective_betas,
+            )
 
         # Point anomalies
         point_savings = point_saving.evaluate(np.column_stack((t_array, t_array + 1)))
@@ -328,11 +340,12 @@ def run_base_capa(
             opt_anomaly_starts[t] = t
 
         # Pruning the admissible starts
-        penalty_sum = collective_alpha + collective_betas.sum()
-        saving_too_low = candidate_savings + penalty_sum < opt_savings[t + 1]
-        too_long_segment = starts < t - max_segment_length + 2
-        prune = saving_too_low | too_long_segment
-        starts = starts[~prune]
+        if collective_possible:
+            penalty_sum = collective_alpha + collective_betas.sum()
+            saving_too_low = candidate_savings + penalty_sum < opt_savings[t + 1]
+            too_long_segment = starts < t - max_segment_length + 2
+            prune = saving_too_low | too_long_segment
+            starts = starts[~prune]
 
     collective_anomalies, point_anomalies = get_anomalies(opt_anomaly_starts)
     return opt_savings[1:], collective_anomalies, point_anomalies
